@@ -75,7 +75,7 @@ def run_model(graph_file, queries, workdir):
             out[w[1]] = cur
         elif w[0] == 'PARSE':
             cur['parse'] = w[1]
-        elif w[0] in ('FROM', 'SELECT', 'PREDS', 'COND', 'INFRAG', 'SPECSAME'):
+        elif w[0] in ('FROM', 'SELECT', 'PREDS', 'COND', 'INFRAG', 'SPECSAME', 'LEX'):
             cur[w[0].lower()] = w[1] if len(w) > 1 else ''
         elif w[0] == 'SPECTUPLE':
             ents = []
@@ -130,6 +130,13 @@ def compare_query(qid, qtext, impl, impl_parsed, model, k_from=None):
     m = model.get(qid)
     if m is None:
         return ['model produced no output']
+    # tokens (lexer model vs ANTLR lexer): "!" prefix = lexer error
+    it = ip.get('toks')
+    if it is not None:
+        if it.startswith('!') != (m.get('lex') == '!'):
+            dis.append('lexer error: impl toks=%s model lex=%s' % (it, m.get('lex')))
+        elif not it.startswith('!') and it != m.get('lex', ''):
+            dis.append('tokens: impl=%s model=%s' % (it, m.get('lex')))
     # accept / reject
     if ip.get('parse') in ('accept', 'reject') and ip.get('parse') != m['parse']:
         dis.append('accept/reject: impl=%s model=%s' % (ip.get('parse'), m['parse']))
